@@ -116,6 +116,7 @@ SCHED = [
     ('{}/r/', False),        # parser back-tracking to a regex
     ('if(a)/r/', False),     # implied block marker on the stack
     ('[,]', False),
+    ('/*c*/a', True),        # a comment that ends up ON a node of the tree
 ]
 SCHED_THOROUGH_ONLY = (9,)
 # thorough: three threads
